@@ -22,7 +22,7 @@ tvars == <<st, last, l, ok, fails>>
 ProcOf(e) == <<e.p, e.k>>
 
 TInit ==
-  /\ st = InitState(1, 0) /\ last = <<"init">>
+  /\ st = InitState(1, 0, TRUE, NoFault) /\ last = <<"init">>
   /\ l = 1 /\ ok = FALSE /\ fails = <<>>
 
 Reject(why) == ok' = FALSE /\ fails' = Append(fails, <<l, why>>) /\ UNCHANGED <<st, last>>
@@ -32,7 +32,7 @@ Step ==
   /\ l' = l + 1
   /\ LET e == Trace[l] IN
      IF e.op = "reset" THEN
-       /\ st' = InitState(e.cs, e.npush) /\ last' = <<"reset">>
+       /\ st' = InitState(e.cs, e.npush, TRUE, NoFault) /\ last' = <<"reset">>
        /\ ok' = TRUE /\ UNCHANGED fails
      ELSE IF ~ok THEN UNCHANGED <<st, last, ok, fails>>
      ELSE IF e.op = "gate" THEN
